@@ -19,6 +19,8 @@ func init() {
 	register("C09", func(c *core.Ctx, tier string) {
 		wsInflatedBound(c, "C09.17")
 		requestRevalidatesTransport(c, "C09.18")
+		handlerReleasedUnderMutex(c, "C09.19")
+		headerValuesComplete(c, "C09.20")
 		variadicIndexSafety(c, "C09.4b")
 		containerEffects(c, "C09.14")
 		baseTransportEffects(c, "C09.15")
